@@ -38,7 +38,9 @@ def fr(mdl, v):
 def grid_model(eng, vs):
     """a model on the dyadic grid (multiples of 1/8) so that the float32 replay is exact; falls back to any model"""
     cons = [v * 8 == z3.Int(f'grid{j}') for j, v in enumerate(vs)]
-    if eng.solver.check(*cons) == z3.sat: return eng.solver.model()
+    extra = [eng.failed_claim] if getattr(eng, 'failed_claim', None) is not None else []
+    if eng.solver.check(*cons, *extra) == z3.sat: return eng.solver.model()
+    if extra and eng.solver.check(*extra) == z3.sat: return eng.solver.model()
     return eng.model()
 
 
